@@ -8,15 +8,16 @@ Local Open Scope N_scope.
 Record case := { c_cfg : cfg; c_trace : list (ev * obs) }.
 Definition mkcase (tun bind nrecv : N) (tr : list (ev * obs)) : case :=
   {| c_cfg := {| c_tun := tun; c_bind := bind; c_nrecv := nrecv |}; c_trace := tr |}.
-Definition mkobs (counts : list N) (selems sconts : N) : obs :=
+Definition mkobs (counts : list N) (selems sconts owner : N) : obs :=
   {| o_counts := {| inC := nth 0 counts 0; outC := nth 1 counts 0; buf := nth 2 counts 0; inE := nth 3 counts 0;
                     outE := nth 4 counts 0 |};
-     o_selems := selems; o_sconts := sconts |}.
+     o_selems := selems; o_sconts := sconts; o_owner := owner |}.
 
 Definition obs_diff (m b : obs) : N :=
   match vdiff (o_counts m) (o_counts b) with
   | d :: _ => d
-  | [] => if negb (o_selems m =? o_selems b) then 6 else if negb (o_sconts m =? o_sconts b) then 7 else 0
+  | [] => if negb (o_selems m =? o_selems b) then 6 else if negb (o_sconts m =? o_sconts b) then 7
+          else if negb (o_owner m =? o_owner b) then 8 else 0
   end.
 
 Fixpoint first_mismatch (s : state) (tr : list (ev * obs)) (i : N) : option N :=
@@ -66,6 +67,8 @@ Definition classify (s : state) (e : ev) (s1 : state) (st : list N) : list N :=
                                  | Some k, _ :: _ => RejectAfterMessages <=? k_nonce k
                                  | _, _ => false end) (s_peers s1) then bump st 26 1 else st in
   match e with
+  | ETunErr pkts => bump (bump st 29 1) 1 (lenN pkts)
+  | EFatalRead => bump st 30 1
   | ETun pkts =>
       let routed := count (fun p => match p with TRoute j => match find_peer j (s_peers s) with Some _ => true | None => false end
                                               | _ => false end) pkts in
@@ -97,4 +100,4 @@ Fixpoint stats_run (s : state) (evs : list ev) (st : list N) : list N :=
   | e :: r => let s1 := step_state s e in stats_run s1 r (classify s e s1 st)
   end.
 Definition stats (ks : list case) : list N :=
-  fold_left (fun st k => stats_run (init (c_cfg k)) (map fst (c_trace k)) st) ks (repeat 0 29).
+  fold_left (fun st k => stats_run (init (c_cfg k)) (map fst (c_trace k)) st) ks (repeat 0 31).
